@@ -151,8 +151,72 @@ def gen_e2e(tier, seed):
     return cases
 
 
+def loop_monitor(case, il, sl):
+    """From the text of C17, on the nominal clock of the case (every time-dependent decision is kept
+    >= 170 ms away from its threshold by the generator): heartbeats off => no heartbeat frame, no
+    timeout; inbound bytes within the last 2h - margin => not declared dead; 2h + margin of silence
+    seen by a timer event => MissedServerHeartbeats; an idle, unsealed, empty output buffer for
+    h + margin seen by a timer event => a heartbeat frame is queued."""
+    import hbgen, refmon, amqp
+    if hbgen.unreliable(il):
+        return None
+    tr = refmon.Trace(case, il)
+    h = case.meta.get("h", 0)
+    now = 0
+    started = None
+    last_rx = None
+    hb_frame = bytes([8, 0, 0, 0, 0, 0, 0, 0xCE])
+    written = b""
+    prev_total = b""
+    dead = False
+    for k, (o, g) in enumerate(tr.al):
+        t = o.split()
+        if t[0] == "sleep":
+            now += int(t[1])
+        elif t[0] == "hb-start":
+            started = now if int(t[1]) > 0 else None
+            last_rx = now
+        elif t[0] == "ev" and t[1] == "stream" and "r" in t[2] and k > 0 and tr.al[k - 1][0].startswith("feed c:"):
+            last_rx = now
+        for l in g:
+            if l.startswith("wrote ") and l != "wrote -":
+                written += bytes.fromhex(l.split()[1])
+            if l.startswith("res err MissedServerHeartbeats"):
+                if started is None:
+                    return ("MissedServerHeartbeats although heartbeats are off (interval 0)", "c17-zero")
+                if now - last_rx < 2 * h - hbgen.MARGIN:
+                    return ("declared dead at %d ms although the server's last bytes arrived at %d ms (2h = %d ms): inbound traffic must count as liveness" % (now, last_rx, 2 * h), "c17-false-death")
+                dead = True
+            if l.startswith("state "):
+                hx_ = l.split("out=")[1]
+                total = written + (bytes.fromhex(hx_) if hx_ != "-" else b"")
+                if started is None and hb_frame in total[len(prev_total):] and total.startswith(prev_total):
+                    try:
+                        frs, _ = amqp.split_frames(total)
+                        if any(ft == 8 for ft, _c, _p in frs):
+                            return ("a heartbeat frame was queued although heartbeats are off", "c17-zero")
+                    except ValueError:
+                        pass
+                prev_total = total
+        if t[0] == "hbev" and started is not None and not dead and g and g[0] == "res ok":
+            if now - last_rx >= 2 * h + hbgen.MARGIN and now - started >= 2 * h + hbgen.MARGIN:
+                return ("timer event at %d ms: no inbound byte since %d ms (2h = %d ms) and the connection is still up" % (now, last_rx, 2 * h), "c17-not-enforced")
+    return None
+
+
+def gen_loop(tier, seed):
+    import hbgen
+    rng = Rng(seed * 41 + 1717)
+    n = 48 if tier == "quick" else 600
+    return [hbgen.session(rng, "h%d" % i, h_choices=(400, 400, 300, 0)) for i in range(n)]
+
+
 def suites(tier, seed):
+    import hbgen
     return [
+        Suite("timers-in-loop", "machine", lambda: gen_loop(tier, seed), monitor=loop_monitor, nontrivial=lambda c, il: any(o == "hbev" for o in c.ops) and c.meta.get("h", 0) > 0,
+              canon=hbgen.canon, shards=16, shrink=False, timeout=300,
+              rule="the REAL I/O loop with its real timers (interval 300/400 ms through the start_heartbeats_ms hook; 0 = off), single-threaded on a case clock with absolute deadlines: sleeps, HEARTBEAT events, inbound bytes (whole heartbeat frames and 1-3 byte fragments of one), frames handed over without bytes, submissions, flushes and stalls; every time-dependent decision >= 170 ms from its threshold; exact diff against the Lean ConnHb model (Conn + Heartbeat) on the nominal clock; cases whose clock was disturbed (> 40 ms late) are set aside"),
         Suite("heartbeat-fire", "heartbeat", lambda: gen(tier, seed), monitor=monitor, nontrivial=nontrivial, compare=False, shards=8, timeout=300,
               rule="real Heartbeat + real mio-extras timer, intervals 200-600 ms: scripts of sleeps to just below / at / above the 5 ms fudge threshold, activity, waiting for the real timer to fire, and fire(); every call bracketed by clock readings, the Lean model evaluated at both ends of each bracket"),
         Suite("heartbeat-e2e", "hbe2e", lambda: gen_e2e(tier, seed), monitor=e2e_monitor, nontrivial=lambda c, il: True, compare=False, shards=8, timeout=300,
